@@ -43,7 +43,7 @@ NAMED = {
     "(Ax+a)(Bx+b)'(Cx+c)(Dx+d)'": "integrate_general_quartic_outer",
 }
 ALL_KEYS = list(NAMED)
-LAYOUTS = ("shared", "percomp", "mixed", "nomat", "novec", "none", "samemat")
+LAYOUTS = ("shared", "percomp", "mixed", "nomat", "novec", "none", "samemat", "nomatper")
 
 
 def rows(key, K, L, M):
@@ -156,8 +156,9 @@ def run_cell(cell, rec, seed):
         if key in GENERAL:
             nrows = rows(key, K, L, M)
             for fi, (nm, n) in enumerate(zip(GENERAL[key], nrows)):
-                per = {"shared": False, "percomp": True, "mixed": fi % 2 == 0}.get(lay, False)
-                has_mat = lay not in ("nomat", "none")
+                per = {"shared": False, "percomp": True, "mixed": fi % 2 == 0,
+                       "nomatper": True}.get(lay, False)  # nomatper: identity matrix, offset
+                has_mat = lay not in ("nomat", "none", "nomatper")  # vector given per component
                 has_vec = lay not in ("novec", "none")
                 if not has_mat:
                     n = D  # omitted matrix means identity: the form has D rows
